@@ -1032,3 +1032,54 @@ mod tests {
         assert_eq!(tightened["z"].get_type(), &VariableType::Real(-10.0, 4.0));
     }
 }
+
+/// Read-only accessors for the verification harness (compiled only with `--cfg rooc_verif`).
+#[cfg(rooc_verif)]
+pub mod verif_hooks {
+    use super::{BoundsAnalyzer, BoundsOptions, DEFAULT_TOLERANCE};
+    use crate::parser::model_transformer::{Constraint, DomainVariable, Exp};
+    use indexmap::IndexMap;
+
+    /// Result of bound inference: the box, the two status flags, and the bounds of the probe expressions.
+    pub struct Analysis {
+        pub variable_bounds: Vec<(String, f64, f64)>,
+        pub reached_iteration_limit: bool,
+        pub detected_infeasible: bool,
+        pub probes: Vec<(f64, f64)>,
+    }
+
+    pub fn analyze(
+        domain: &IndexMap<String, DomainVariable>,
+        constraints: &[Constraint],
+        max_steps: Option<usize>,
+        probes: &[Exp],
+    ) -> Analysis {
+        let analyzer = match max_steps {
+            Some(max_steps) => BoundsAnalyzer::analyze_with_options(
+                domain,
+                constraints,
+                BoundsOptions {
+                    tolerance: DEFAULT_TOLERANCE,
+                    max_steps,
+                },
+            ),
+            None => BoundsAnalyzer::analyze(domain, constraints),
+        };
+        Analysis {
+            variable_bounds: analyzer
+                .variable_bounds
+                .iter()
+                .map(|(name, bounds)| (name.clone(), bounds.lower, bounds.upper))
+                .collect(),
+            reached_iteration_limit: analyzer.reached_iteration_limit,
+            detected_infeasible: analyzer.detected_infeasible,
+            probes: probes
+                .iter()
+                .map(|exp| {
+                    let bounds = analyzer.bounds_of(exp);
+                    (bounds.lower, bounds.upper)
+                })
+                .collect(),
+        }
+    }
+}
